@@ -33,10 +33,35 @@ use aranya_crypto::{
 use serde::{Deserialize, Serialize};
 use vrt::{json, Args, Rng, Value, J};
 
-#[derive(Clone, Debug, Eq, PartialEq, Serialize, Deserialize)]
+/// The wrapped key.  `poison != 0` makes `Serialize` fail — before the first field (1), after
+/// `v` (2) or after `pad` (3) — which is how the harness drives a failing `Vacant::insert`
+/// (the write of the wrapped key fails after the fs store created the file).
+#[derive(Clone, Debug, Eq, PartialEq, Deserialize)]
 struct TestKey {
     v: u64,
     pad: Vec<u8>,
+    #[serde(skip)]
+    poison: u8,
+}
+
+impl Serialize for TestKey {
+    fn serialize<S: serde::Serializer>(&self, s: S) -> Result<S::Ok, S::Error> {
+        use serde::ser::{Error, SerializeStruct};
+        let fail = || S::Error::custom("wrapped key cannot be exported");
+        if self.poison == 1 {
+            return Err(fail());
+        }
+        let mut st = s.serialize_struct("TestKey", 2)?;
+        st.serialize_field("v", &self.v)?;
+        if self.poison == 2 {
+            return Err(fail());
+        }
+        st.serialize_field("pad", &self.pad)?;
+        if self.poison == 3 {
+            return Err(fail());
+        }
+        st.end()
+    }
 }
 
 impl WrappedKey for TestKey {}
@@ -299,6 +324,16 @@ fn replay<B: Backend>(b: &mut B, steps: &[Step], w: &World<'_>) -> (Vec<Obs>, Ob
                                     Err(p) => (o.r, o.detail) = ("panic".into(), p),
                                 }
                             }
+                            Some("vinsertfail") => {
+                                let key = w.keys[&POISON_KEY].clone();
+                                let r = vrt::catch_any(|| v.insert(key));
+                                o = Obs::default();
+                                match r {
+                                    Ok(Ok(())) => o.r = "ok".into(),
+                                    Ok(Err(e)) => (o.r, o.detail) = err_class(&e),
+                                    Err(p) => (o.r, o.detail) = ("panic".into(), p),
+                                }
+                            }
                             Some("vdrop") => {
                                 let r = vrt::catch_any(|| drop(v));
                                 o = Obs::default();
@@ -366,6 +401,9 @@ fn replay<B: Backend>(b: &mut B, steps: &[Step], w: &World<'_>) -> (Vec<Obs>, Ob
                 let kv = if st.ins != 0 { st.ins } else { NEXT_KEY };
                 o = call_top(b.store(), "tryinsert", id_of(st), Some(w.keys[&kv].clone()))
             }
+            "tryinsertfail" if !gone => {
+                o = call_top(b.store(), "tryinsert", id_of(st), Some(w.keys[&POISON_KEY].clone()))
+            }
             "remove" if !gone => o = call_top(b.store(), "remove", id_of(st), None),
             "reopen" => {
                 o = Obs::default();
@@ -383,9 +421,14 @@ fn replay<B: Backend>(b: &mut B, steps: &[Step], w: &World<'_>) -> (Vec<Obs>, Ob
                 o = Obs { r: "ok".into(), ..Obs::default() };
             }
             "get" => o = call_top(b.store(), "get", id_of(st), None),
-            "entry" | "tryinsert" | "remove" => {
-                let key = (st.op == "tryinsert").then(|| w.keys[&NEXT_KEY].clone());
-                o = b.gone_call(&st.op, id_of(st), key);
+            "entry" | "tryinsert" | "tryinsertfail" | "remove" => {
+                let key = match st.op.as_str() {
+                    "tryinsert" => Some(w.keys[&NEXT_KEY].clone()),
+                    "tryinsertfail" => Some(w.keys[&POISON_KEY].clone()),
+                    _ => None,
+                };
+                let op = if st.op == "tryinsertfail" { "tryinsert" } else { st.op.as_str() };
+                o = b.gone_call(op, id_of(st), key);
                 if o.r == "hang" || o.r == "not-run" {
                     out.push(o);
                     break 'outer;
@@ -415,6 +458,8 @@ fn replay<B: Backend>(b: &mut B, steps: &[Step], w: &World<'_>) -> (Vec<Obs>, Ob
 
 /// key used by a `tryinsert` the model expects to be refused (its `ins` is 0)
 const NEXT_KEY: u64 = 1_000_000;
+/// key whose encoding fails (`vinsertfail` / `tryinsertfail`)
+const POISON_KEY: u64 = 2_000_000;
 
 struct Verdict {
     step: i64,
@@ -593,10 +638,14 @@ pub fn run(args: &Args) {
         }
         let names: Vec<String> = ids.iter().map(|x| x.to_string()).collect();
         let mut keys = BTreeMap::new();
-        for v in steps.iter().map(|s| s.ins).filter(|v| *v != 0).chain([NEXT_KEY]) {
+        for v in steps.iter().map(|s| s.ins).filter(|v| *v != 0).chain([NEXT_KEY, POISON_KEY]) {
             let mut pad = vec![0u8; rng.below(96) as usize];
             rng.fill(&mut pad);
-            keys.insert(v, TestKey { v, pad });
+            keys.insert(v, TestKey { v, pad, poison: 0 });
+        }
+
+        if let Some(k) = keys.get_mut(&POISON_KEY) {
+            k.poison = rng.range(1, 3) as u8;
         }
 
         // in-memory store
